@@ -38,6 +38,13 @@ cimport cython
 from libc.math cimport sqrt, floor
 %(cimports)s
 
+cdef extern from "pm_hdr_a.h":
+    int PM_HDR_A
+cdef extern from "pm_hdr_b.h":
+    int PM_HDR_B
+cdef extern from "pm_hdr_c.h":
+    int PM_HDR_C
+
 ctypedef fused num%(i)d_t:
     int
     long
@@ -122,7 +129,7 @@ cdef Point%(i)d make_point%(i)d(double x, double y) noexcept:
 
 def point_norm%(i)d(double x, double y):
     cdef Point%(i)d p = make_point%(i)d(x, y)
-    return sqrt(p.x * p.x + p.y * p.y), floor(p.x), <int>GREEN%(i)d, helper%(i)d(<int>x)
+    return sqrt(p.x * p.x + p.y * p.y), floor(p.x), <int>GREEN%(i)d, helper%(i)d(<int>x), PM_HDR_A + PM_HDR_B + PM_HDR_C
 
 
 def closures%(i)d(n, scale=%(k)d):
@@ -224,6 +231,8 @@ def pyx_modules(rng, count):
         files['pm%d.pxd' % i] = pxd
         files['pm%d.pyx' % i] = PYX % d
         mods.append('pm%d.pyx' % i)
+    for h in 'abc':
+        files['pm_hdr_%s.h' % h] = '#define PM_HDR_%s %d\n' % (h.upper(), ord(h))
     return files, mods
 
 
